@@ -133,7 +133,9 @@ def _case(draw, maxstages, maxdepth):
                 body = typed._fill(cx, se)
             if cfg.helpers and t in (typed.I, typed.F) and draw(st.integers(0, 2)) == 0:
                 # a two-argument, non-commutative helper called positionally at the root of the body
-                body = f"hsub({body}, {typed.gen(cx, env, t, 0)})"
+                other = typed.gen(cx, env, t, 0)
+                body = draw(st.sampled_from([f"hsub({body}, {other})", f"hsub({body}, {other})", f"hsub(b={other}, a={body})", f"hadd(b={other}, a={body})", f"hadd({body}, b={other})",
+                                             f"hadd(b={other}, a=hsub(b={typed.gen(cx, env, t, 0)}, a={body}))", f"hsub(b=hadd(b={other}, a={body}), a={typed.gen(cx, env, t, 0)})"]))
             stages.append({"id": sid, "parent": parent["id"], "op": "Select", "param": p, "body": body, "form": form})
             streams.append({"id": sid, "type": t})
         elif k <= 7:
